@@ -63,7 +63,7 @@ Print Assumptions C16_after_bind.
 (* the bookkeeping invariant L used above holds in every reachable state *)
 Theorem C16_L_reachable : forall (s0 : sockst) (sched : list label) (w : world),
   (forall p, s0 <> Bound p) -> run sched (init s0) = Some w -> L w.
-Proof. intros s0 sched w H R. exact (L_run sched _ _ (L_init s0 H) R). Qed.
+Proof. exact L_reachable. Qed.
 Print Assumptions C16_L_reachable.
 
 Example C16_after_bind_premise_reached :
